@@ -116,7 +116,52 @@ def do_roundtrip(req):
     return res
 
 
-OPS = {"parse": do_parse, "lex": do_lex, "roundtrip": do_roundtrip}
+def _outcome(parser, text, filename):
+    try:
+        ast = parser.parse(text, filename)
+    except c_parser.ParseError as e:
+        return {"outcome": "ParseError", "msg": str(e)}, None
+    except RecursionError:
+        return {"outcome": "RecursionError"}, None
+    except Exception as e:
+        return {"outcome": "exc", "exc": exc_sig(e)}, None
+    return {"outcome": "ast", "dump": ast_dump(ast, coords=True)}, ast
+
+
+def _ids(node, acc):
+    if node is None:
+        return acc
+    if isinstance(node, list):
+        for x in node:
+            _ids(x, acc)
+        return acc
+    if isinstance(node, c_ast.Node):
+        acc.add(id(node))
+        for name in node.__slots__:
+            if name not in ("coord", "__weakref__"):
+                _ids(getattr(node, name), acc)
+    return acc
+
+
+def do_history(req):
+    """texts parsed one after the other on ONE parser instance; each also on a fresh instance"""
+    p = c_parser.CParser()
+    reused, fresh, keep = [], [], []
+    shared = False
+    for text, fn in req["texts"]:
+        o, ast = _outcome(p, text, fn)
+        if ast is not None:
+            ids = _ids(ast, set())
+            for prev in keep:
+                if ids & prev[1]:
+                    shared = True
+            keep.append((ast, ids))
+        reused.append(o)
+        fresh.append(_outcome(c_parser.CParser(), text, fn)[0])
+    return {"reused": reused, "fresh": fresh, "shared_nodes": shared}
+
+
+OPS = {"parse": do_parse, "lex": do_lex, "roundtrip": do_roundtrip, "history": do_history}
 
 
 def main():
